@@ -135,7 +135,7 @@ Ltac push_loops :=
     | rewrite map_const_range ].
 
 Ltac idioms :=
-  unfold zarity in *; push_loops;
+  unfold zarity in *; rewrite ?eq0_is_term, ?lt0_is_prim; push_loops;
   rewrite ?list_mul_single, ?getslice_tail, ?zmax_if, ?zmax_if', ?map_rev.
 
 (* [mcrush] with the idioms normalised wherever the case analysis exposes them *)
@@ -315,16 +315,26 @@ Ltac draw_bounds :=
 (* case analysis with the calls of translated functions rewritten to the model first *)
 Ltac mrew :=
   rewrite ?gen_search_nat, ?gen_setslice_nat, ?gen_setitem_nat, ?getitem_nat, ?gen_height_eq, ?gen_root_eq.
+(* contradictory combinations of the case distinctions the two sides make about the same number / list *)
+Ltac prune :=
+  try solve [ exfalso;
+              repeat match goal with
+                     | E : ?x = ?c |- _ =>
+                         lazymatch type of x with list _ => idtac end;
+                         lazymatch c with nil => idtac | cons _ _ => idtac end;
+                         rewrite E in *; clear E
+                     end;
+              cbn [length] in *; lia ].
 Ltac mcrush_with rew :=
   munfold;
   repeat (cbv beta iota zeta; cbn [fst snd]; use_eqns;
           repeat match goal with p : (_ * _)%type |- _ => destruct p end;
           draw_bounds;
-          try progress mrew; try progress idioms; try progress rew;
-          unfold m_height, m_root; munfold; cbv beta iota zeta; cbn [fst snd];
+          repeat (progress (try progress mrew; try progress idioms; try progress rew;
+                            unfold m_height, m_root; munfold; cbv beta iota zeta; cbn [fst snd]));
           lazymatch goal with
           | |- ?l = ?r => step_heads l r
-          end; try solve [ exfalso; lia ]);
+          end; prune);
   repeat match goal with p : (_ * _)%type |- _ => destruct p end;
   cbv beta iota zeta; try progress idioms; munfold; cbv beta iota zeta; cbn [fst snd]; try mleaf.
 Ltac mcrush2 := mcrush_with idtac.
@@ -395,4 +405,62 @@ Proof.
   end.
   cbn [length app] in W. unfold bind in W |- *. rewrite W.
   destruct (limit_fold_k key maxv args outs ds1) as [[r ds2]|]; reflexivity.
+Qed.
+
+(* ---------------------------------------------------------------------------------------------- *)
+(* cxOnePoint / cxOnePointLeafBiased                                                                 *)
+(* ---------------------------------------------------------------------------------------------- *)
+(* the only element a one-element sequence offers *)
+Ltac single_choice :=
+  repeat match goal with
+         | E : d_choice [?x] _ = Ok (?t, _) |- _ =>
+             is_var t;
+             assert (t = x) by (apply d_choice_ok in E; destruct E as [[?|[]] _]; congruence); subst t
+         end.
+(* slices of spans *)
+Ltac span_slices :=
+  repeat match goal with
+         | E : search_subtree ?l ?i = Ok (?b, ?e) |- context [getslice_obj ?l (zslice (?b, ?e))] =>
+             rewrite (getslice_obj_nat l b e) by (pose proof (search_subtree_bounds _ _ _ _ E); lia)
+         end.
+(* the two position tables, built by the loops with the filter [k1] / [k2] *)
+Ltac dd_loops :=
+  repeat lazymatch goal with
+         | |- context [for_each (map zfst ?e) ?b ?d ?ds] =>
+             first [ rewrite (for_dd all_nodes b) by (intros; unfold all_nodes; mcrush')
+                   | rewrite (for_dd is_term b) by (intros; mcrush')
+                   | rewrite (for_dd is_prim b) by (intros; mcrush') ]
+         end.
+
+Lemma gen_cxOnePoint_eq l1 l2 ds : gen_cxOnePoint l1 l2 ds = m_cxOnePoint l1 l2 ds.
+Proof.
+  first [ reflexivity | idtac ].
+  unfold gen_cxOnePoint, m_cxOnePoint, cx_one_point, cx_one_point_with, swap_subtrees, common_types.
+  destruct (dd_build_model all_nodes l1) as (K1 & G1 & M1).
+  destruct (dd_build_model all_nodes l2) as (K2 & G2 & M2).
+  mcrush_with ltac:(
+    single_choice; span_slices; cbn [dd_set dd_get]; rewrite ?N.eqb_refl;
+    rewrite ?enumerate_from_1_tl; dd_loops;
+    rewrite ?K1, ?G1, ?G2, ?d_choice_map, ?range2_seq;
+    try rewrite (filter_ext _ _ M2)).
+Qed.
+
+Lemma gen_cxOnePointLeafBiased_eq l1 l2 termpb ds :
+  gen_cxOnePointLeafBiased l1 l2 termpb ds = m_cxOnePointLeafBiased l1 l2 termpb ds.
+Proof.
+  first [ reflexivity | idtac ].
+  unfold gen_cxOnePointLeafBiased, m_cxOnePointLeafBiased, cx_leaf_biased, cx_leaf_biased_with, swap_subtrees, common_types.
+  destruct termpb as [pn pd]. cbn [fst snd].
+  destruct (dd_build_model is_term l1) as (K1t & G1t & M1t).
+  destruct (dd_build_model is_prim l1) as (K1p & G1p & M1p).
+  destruct (dd_build_model is_term l2) as (K2t & G2t & M2t).
+  destruct (dd_build_model is_prim l2) as (K2p & G2p & M2p).
+  mcrush_with ltac:(
+    span_slices;
+    repeat match goal with
+           | |- context [lt_frac ?u ?a ?b] => let E := fresh "E" in destruct (lt_frac u a b) eqn:E
+           end;
+    rewrite ?enumerate_from_1_tl; dd_loops;
+    rewrite ?K1t, ?K1p, ?G1t, ?G1p, ?G2t, ?G2p, ?d_choice_map;
+    try rewrite (filter_ext _ _ M2t); try rewrite (filter_ext _ _ M2p)).
 Qed.
